@@ -181,6 +181,9 @@ func c11Exec(payload string) (sig, detail string) {
 	for i, r := range it.Refs {
 		vals[i] = c11Resolve(r)
 	}
+	if it.Op == "alias" {
+		return c11Alias(vals[0])
+	}
 	if strings.HasPrefix(it.Op, "law:") {
 		return c11Law(strings.TrimPrefix(it.Op, "law:"), vals)
 	}
@@ -338,6 +341,76 @@ func c11Law(name string, t []refsem.Val) (sig, detail string) {
 	return "law:" + name + ":" + kinds(t), c11Text(name, t) + ": " + detail
 }
 
+// c11Alias applies the operators to one implementation value used twice, to a full slice of it and to two
+// concatenations that extend the same left operand.
+func c11Alias(a refsem.Val) (sig, detail string) {
+	defer func() {
+		if r := recover(); r != nil {
+			sig, detail = "host-panic:alias", fmt.Sprint(r)
+		}
+	}()
+	x := impl.FromRef(a)
+	obs := func(v value.Type, err error) string {
+		if err != nil {
+			return "ERR " + impl.ErrClass(err)
+		}
+		return impl.ToRef(v).Canon()
+	}
+	for _, op := range []string{"==", "!=", "<", "<=", "+", "-", "&"} {
+		want, _ := c11Ref(op, []refsem.Val{a, a})
+		_, dom := c11Ref(op, []refsem.Val{a, a})
+		if dom != "" || a.K == refsem.KNil {
+			continue
+		}
+		got := obs(c11Apply(op, []value.Type{x, x}))
+		if got != want {
+			return "identity-sensitive:" + op + ":" + a.K.String(), fmt.Sprintf("%s applied to one and the same value %s gives %s, documented %s", op, a.Canon(), got, want)
+		}
+	}
+	if a.K != refsem.KArr {
+		return "", ""
+	}
+	n := len(a.A)
+	full, err := x.Index(value.NewInt(0), value.NewInt(n))
+	if err != nil {
+		return "identity-sensitive:slice", "full slice fails: " + err.Error()
+	}
+	wantEq, _ := c11Ref("==", []refsem.Val{a, a})
+	if got := obs(x.Eq(bytecode.EQ, full)); got != wantEq {
+		return "identity-sensitive:==:slice", fmt.Sprintf("%s == its own full slice gives %s, documented %s", a.Canon(), got, wantEq)
+	}
+	if got := obs(full.Eq(bytecode.NE, x)); (got == "b:true") == (wantEq == "b:true") && !strings.HasPrefix(wantEq, "ERR") {
+		return "identity-sensitive:!=:slice", fmt.Sprintf("%s != its own full slice gives %s although == gives %s", a.Canon(), got, wantEq)
+	}
+	// base = a + [90]; l = base + [10]; r = base + [20]: l must keep its value, base and a too
+	ext := func(l value.Type, k int) value.Type {
+		r, err := l.Arith(bytecode.ADD, value.NewArray([]value.Type{value.NewInt(k)}))
+		if err != nil {
+			panic(err)
+		}
+		return r
+	}
+	base := ext(x, 90)
+	baseWas := impl.ToRef(base).Canon()
+	for _, pre := range []value.Type{base, x, full} {
+		preWas := impl.ToRef(pre).Canon()
+		l := ext(pre, 10)
+		lWas := impl.ToRef(l).Canon()
+		r := ext(pre, 20)
+		_ = r
+		if now := impl.ToRef(l).Canon(); now != lWas {
+			return "concat-alters-earlier-result", fmt.Sprintf("l = v + [10] was %s, after r = v + [20] it is %s (v = %s)", lWas, now, preWas)
+		}
+		if now := impl.ToRef(pre).Canon(); now != preWas {
+			return "concat-alters-operand", fmt.Sprintf("v was %s, after two concatenations it is %s", preWas, now)
+		}
+	}
+	if now := impl.ToRef(base).Canon(); now != baseWas || impl.ToRef(x).Canon() != a.Canon() {
+		return "concat-alters-operand", fmt.Sprintf("operand %s / %s changed to %s / %s", a.Canon(), baseWas, impl.ToRef(x).Canon(), now)
+	}
+	return "", ""
+}
+
 func whole2(c, i refsem.Val) refsem.Val {
 	n, _, _ := refsem.UnOp("#", c)
 	l, _ := refsem.Index2(c, refsem.Int(0), i)
@@ -444,6 +517,20 @@ func c11Run(w *core.W) {
 			}
 		}
 	}
+	// the same value object on both sides, a copy and a full slice of it (shared backing store), and two
+	// extensions of the same left operand: answers may not depend on identity, and a + b may not change a
+	w.Family("aliasing")
+	for i, a := range vals {
+		key := "alias " + a.Canon()
+		if !w.Mine(key) {
+			continue
+		}
+		w.NonTrivial()
+		if sig, detail := c11Alias(a); sig != "" {
+			w.Fail(c11Pay("alias", []refsem.Val{a}, c11Ref1{"V", i}), sig, detail)
+		}
+	}
+	w.Family("laws")
 	for ci, c := range cs {
 		if c.K != refsem.KArr && c.K != refsem.KStr {
 			continue
